@@ -6,6 +6,7 @@ import Std.Data.HashMap
 import EpsModel.Show
 import EpsModel.Mask
 import EpsModel.Schema
+import EpsModel.Cursor
 import EpsModel.XXH3
 open Eps
 
@@ -66,6 +67,42 @@ def doCase (st : St) (i r : Nat) (mu val : String) : String :=
   | none, _ => "notype"
   | _, none => "badval"
 
+open Eps.Cur in
+def parseCOps (s : String) : Option (List Op) :=
+  (s.splitOn ";").filter (· ≠ "") |>.mapM fun t =>
+    match t.splitOn ":" with
+    | ["w", h] => some (.write (unhex h.toList))
+    | ["w"] => some (.write [])
+    | ["r", n] => n.toNat?.map .read
+    | ["ss", n] => n.toNat?.map fun n => .seek (.start n)
+    | ["se", i] => i.toInt?.map fun i => .seek (.end i)
+    | ["sc", i] => i.toInt?.map fun i => .seek (.current i)
+    | ["p", n] => n.toNat?.map .setPos
+    | ["f"] => some .flush
+    | _ => none
+
+open Eps.Cur in
+def showOut : Out → String
+  | .wrote n => "w" ++ toString n
+  | .bytes b => "b" ++ hexOf b
+  | .pos n => "p" ++ toString n
+  | .unit => "u"
+  | .invalidInput => "einv"
+  | .panic => "panic"
+
+/-- outputs up to and including the first panic -/
+def cutAtPanic : List String → List String
+  | [] => []
+  | "panic" :: _ => ["panic"]
+  | x :: xs => x :: cutAtPanic xs
+
+open Eps.Cur in
+def cursorLine (al : Nat) (ops : List Op) : String :=
+  let (a, ao) := ACur.run al ACur.init ops
+  let (s, so) := SCur.run SCur.init ops
+  "cursor " ++ ",".intercalate (cutAtPanic (ao.map showOut)) ++ " | " ++ hexOf a.asBytes ++ " " ++ toString a.len ++ " " ++ toString a.pos ++ " ptrok || " ++
+    ",".intercalate (so.map showOut) ++ " | " ++ hexOf s.buf ++ " " ++ toString s.buf.length ++ " " ++ toString s.pos ++ " ptrok"
+
 def step (st : St) (line : String) : St × Option String :=
   match line.trimAscii.toString.splitOn " " with
   | ["name", i, h] =>
@@ -104,6 +141,10 @@ def step (st : St) (line : String) : St × Option String :=
         (st, some ("schema ok " ++ maskedHex s m ++ " " ++
           String.join (rows.map fun r => toString r.depth ++ "," ++ toString r.off ++ "," ++ toString r.size ++ "," ++ toString r.align ++ ";")))
       | _, _ => (st, some "badval")
+  | ["cursor", a, ops] =>
+      match a.toNat?, parseCOps ops with
+      | some al, some ops => (st, some (cursorLine al ops))
+      | _, _ => (st, some "badops")
   | ["xxh", h] => (st, some ("xxh " ++ toString (H (unhex h.toList))))
   | [""] => (st, none)
   | _ => (st, some "bad-op")
